@@ -382,6 +382,10 @@ func (hp *HTTPProxy) pacProxy(r *http.Request) (*url.URL, error) {
 	if err != nil {
 		return nil, err
 	}
+	if p.Mode == pac.SOCKS || p.Mode == pac.SOCKS4 {
+		// Only SOCKS5 is implemented, the transport would treat the address as an HTTP proxy.
+		return nil, fmt.Errorf("unsupported PAC proxy type %s", p.Mode)
+	}
 
 	proxyURL := p.URL()
 
